@@ -67,41 +67,43 @@ var errPipeClosed = errors.New("pipe closed")
 // frag bytes.
 // stallState lets the two directions of a duplex notice that both parties wait
 // for bytes that will never come (the stand-in for the handshake read
-// deadline of the real transport).
+// deadline of the real transport). A party is idle if it has returned, or if
+// it waits in Read on an empty pipe; the "waiting" flag lives in the pipe and
+// is guarded by the pipe's mutex, like the pipe's content, so that check sees
+// a consistent picture.
 type stallState struct {
-	mu      sync.Mutex
-	blocked [2]bool // party i is blocked in Read
-	done    [2]bool // party i has returned from DoHandshake
-	pipes   [2]*halfPipe
+	mu    sync.Mutex
+	done  [2]bool      // party i has returned from DoHandshake
+	pipes [2]*halfPipe // pipes[i] is read by party i
 }
 
 // check closes both pipes if nobody can make progress any more. Must be called
 // without any halfPipe mutex held.
 func (st *stallState) check() {
 	st.mu.Lock()
-	stuck := (st.blocked[0] || st.done[0]) && (st.blocked[1] || st.done[1]) && (st.blocked[0] || st.blocked[1])
+	done := st.done
 	st.mu.Unlock()
-	if !stuck {
-		return
+	st.pipes[0].mu.Lock()
+	st.pipes[1].mu.Lock()
+	idle := [2]bool{}
+	for i, h := range st.pipes {
+		idle[i] = done[i] || (h.readerWaiting && len(h.msgs) == 0 && len(h.cur) == 0 && !h.closed)
 	}
-	// a blocked reader only counts if its pipe is really empty
-	for _, h := range st.pipes {
-		h.mu.Lock()
-		pending := len(h.msgs) > 0 || len(h.cur) > 0
-		h.mu.Unlock()
-		if pending {
-			return
+	stuck := idle[0] && idle[1] && !(done[0] && done[1])
+	if stuck {
+		for _, h := range st.pipes {
+			h.closed = true
+			h.cond.Broadcast()
 		}
 	}
-	for _, h := range st.pipes {
-		h.Close()
-	}
+	st.pipes[1].mu.Unlock()
+	st.pipes[0].mu.Unlock()
 }
 
 type halfPipe struct {
-	stall  *stallState
-	reader int // index of the party that reads this pipe
-	mu     sync.Mutex
+	stall         *stallState
+	readerWaiting bool // the reading party waits for data (guarded by mu)
+	mu            sync.Mutex
 	cond   *sync.Cond
 	msgs   [][]byte
 	cur    []byte
@@ -160,25 +162,17 @@ func (h *halfPipe) Read(p []byte) (int, error) {
 			return 0, io.EOF
 		}
 		if h.stall != nil {
+			h.readerWaiting = true
 			h.mu.Unlock()
-			h.stall.mu.Lock()
-			h.stall.blocked[h.reader] = true
-			h.stall.mu.Unlock()
 			h.stall.check()
 			h.mu.Lock()
 			if len(h.msgs) > 0 || h.closed {
-				h.stall.mu.Lock()
-				h.stall.blocked[h.reader] = false
-				h.stall.mu.Unlock()
+				h.readerWaiting = false
 				continue
 			}
 		}
 		h.cond.Wait()
-		if h.stall != nil {
-			h.stall.mu.Lock()
-			h.stall.blocked[h.reader] = false
-			h.stall.mu.Unlock()
-		}
+		h.readerWaiting = false
 	}
 	n := len(p)
 	if h.frag > 0 && n > h.frag {
@@ -324,8 +318,8 @@ func (p *hsPair) run() {
 	}
 	// party 0 = initiator (reads r2i), party 1 = responder (reads i2r)
 	st := &stallState{pipes: [2]*halfPipe{p.r2i, p.i2r}}
-	p.r2i.stall, p.r2i.reader = st, 0
-	p.i2r.stall, p.i2r.reader = st, 1
+	p.r2i.stall = st
+	p.i2r.stall = st
 	finished := func(i int) {
 		st.mu.Lock()
 		st.done[i] = true
